@@ -157,6 +157,10 @@ def verify_unit(reg, idx: SourceIndex, c: Contract, timeout_ms=None, seed=0, dis
                     eng.exec_stmt_raw(s, st)
                 finally:
                     eng.spec_mode -= 1
+        from .stmts import ownership_violations
+        bad = ownership_violations(info.node, info.module)
+        if bad:
+            raise OutOfSubset("ownership: " + "; ".join(bad))
         outs = eng.exec_block(info.node.body, st)
         n_normal = 0
         for o in outs:
